@@ -58,6 +58,7 @@ class Outcome:
         self.nontrivial = False
         self.note = None
         self.refused = False     # the system under test refused the scenario (not a violation)
+        self.explicit = None     # explicit (replayable, generator-independent) form of the scenario, if the engine derived one
 
     def probe(self, name, n=1):
         self.probes[name] = self.probes.get(name, 0) + n
@@ -84,6 +85,7 @@ class Outcome:
             'nontrivial': self.nontrivial,
             'refused': self.refused,
             'note': self.note,
+            'explicit': self.explicit,
         }
 
 
@@ -236,6 +238,8 @@ def worker_main(argv):
             agg['refused'] += 1
         if res['nontrivial']:
             agg['nontrivial_keys'].add(res['digest'])
+        if res.get('explicit'):
+            scenario = dict(res['explicit'], _run=i, _seed=seed)
         if len(agg['samples']) < 2 and res['nontrivial']:
             agg['samples'].append({'run': i, 'scenario': scenario, 'digest': res['digest'], 'klass': res['klass']})
         for v in res['violations']:
